@@ -150,11 +150,23 @@ def rule_ctx_store(prog, em):
     absent name and the stored value for a variable; references pass the node's own name"""
     obs = []
     cw = em.ctx_writers()
+    from_exec = {em.exec.id}
+    work = [em.exec.id]
+    while work:
+        x = work.pop()
+        for y in prog.edges.get(x, ()):
+            if y not in from_exec:
+                from_exec.add(y); work.append(y)
     for bid in sorted(em._cw_direct & cw):
         b = prog.by_id[bid]
         ins = [c for c in b.live_calls if (c.callee or '').endswith('::insert') and 'context::ContextValue' in ' '.join(c.term['arg_tys'])]
         key = 'CTXSTORE|%s' % b.name
         others = [c for c in b.live_calls if re.match(r'^std::collections::HashMap::<K, V, S, A>::(remove|clear|entry|retain|extend|get_mut|drain)$', c.callee or '')]
+        if not ins and others and bid not in from_exec:
+            # an un-binding API (remove / clear): a different operation from the one the property speaks about, as long as
+            # no evaluation can reach it
+            obs.append(ok('CTXSTORE', key, '%s removes bindings and is not reachable from the evaluator' % b.name, b.where()))
+            continue
         if len(ins) != 1 or others:
             obs.append(bad('CTXSTORE', key, '%s: expected exactly one insert on the context map' % b.name, b.where(), body=b.name))
             continue
